@@ -133,7 +133,56 @@ func endOfLifeCalls(r *harness.Runner) (v *harness.Violation) {
 	if ls := r.F.VerifLockState(); ls.SharedCount != 0 || ls.PendingSet || ls.ReservedHeld {
 		return &harness.Violation{Clause: "lock-not-idle", Item: -1, Msg: fmt.Sprintf("after closing all transactions the lock state is %+v", ls)}
 	}
-	return r.Finish()
+	// File.Close while a write transaction is (only) open: Close has to wait for it, and until the
+	// writer ends readers must not be locked out (a writer that needs a read transaction to finish
+	// would deadlock with the waiting Close otherwise)
+	f := r.F
+	wtx, err = f.Begin()
+	if err != nil {
+		return &harness.Violation{Clause: "begin", Item: -1, Msg: fmt.Sprintf("Begin failed: %v", err)}
+	}
+	closed := make(chan error, 1)
+	go func() { closed <- f.Close() }()
+	for i := 0; i < 100; i++ {
+		runtime.Gosched()
+	}
+	time.Sleep(time.Millisecond)
+	ls := f.VerifLockState()
+	type br struct {
+		tx  *txfile.Tx
+		err error
+	}
+	began := make(chan br, 1)
+	go func() {
+		tx, err := f.BeginReadonly()
+		began <- br{tx, err}
+	}()
+	var hang *harness.Violation
+	select {
+	case b := <-began:
+		if b.err == nil {
+			b.tx.Close()
+		}
+	case <-time.After(10 * time.Second):
+		hang = &harness.Violation{Clause: "hang", Item: -1, Msg: fmt.Sprintf("BeginReadonly blocks while a write transaction is open (not committing) and File.Close waits for it; lock state %+v", ls)}
+	}
+	wtx.Close()
+	select {
+	case <-closed:
+	case <-time.After(HangTimeout):
+		return &harness.Violation{Clause: "hang", Item: -1, Msg: "File.Close did not return after the last transaction was closed"}
+	}
+	r.F = nil
+	if hang != nil {
+		return hang
+	}
+	if ls.PendingSet {
+		return &harness.Violation{Clause: "close-locks-out-readers", Item: -1, Msg: fmt.Sprintf("File.Close waiting for an open (not committing) write transaction has set the pending lock: new readers are locked out; lock state %+v", ls)}
+	}
+	if r.Disk.Locked() {
+		return &harness.Violation{Clause: "close-lock", Item: -1, Msg: "file lock still held after Close"}
+	}
+	return nil
 }
 
 // ---------- (b) concurrent stress ----------
